@@ -356,6 +356,7 @@ def apply_command(ctx: Ctx, prop: str, model: MailModel, cl, cmd) -> list:
 
 class C10(Profile):
     id = 'C10'
+    BACKENDS = ('dict', 'dict', 'dict', 'maildir')
     level = 'exploration'
     quick_budget_s = 45.0
     thorough_budget_s = 420.0
@@ -380,7 +381,9 @@ class C10(Profile):
     components = C01.components
 
     def gen(self, rng, tier):
-        return gen_model_case(rng, tier)
+        from .common import backends, finish_cfg
+        return finish_cfg(gen_model_case(
+            rng, tier, backends=backends(self.BACKENDS)), rng)
 
     def run(self, case, trace=False):
         ctx = Ctx(case, trace=trace)
